@@ -30,7 +30,7 @@ LEVEL_TEXT = ("Exploration: thousands of (configuration x request multiset) comp
 LEVEL_NOTE = "Trusts ref_request.py; uuid/dtclient are the library's own (TRNUIDs only checked for distinctness, DTCLIENT for plausibility)."
 DESIGN_REF = "DESIGN.md §3 C06"
 MIN_COUNTERS = {"quick": {"compositions": 3000, "requests_compared": 9000, "versions_seen": 11, "refusals_2xx_unclosed": 50},
-                "thorough": {"compositions": 60000, "requests_compared": 180000, "versions_seen": 11, "refusals_2xx_unclosed": 500}}
+                "thorough": {"compositions": 200000, "requests_compared": 500000, "versions_seen": 11, "refusals_2xx_unclosed": 500}}
 
 VERSIONS = [102, 103, 151, 160, 200, 201, 202, 203, 210, 211, 220]
 ACCTTYPES = ["CHECKING", "SAVINGS", "MONEYMRKT", "CREDITLINE", "CD"]
@@ -332,7 +332,7 @@ def refusals(ctx, rng):
 def run_shard(ctx):
     for st in (ref_sgml.selftest, R.selftest):
         st()
-    n = (4200 if ctx.tier == "quick" else 80000) // ctx.nshards
+    n = (4200 if ctx.tier == "quick" else 240000) // ctx.nshards
     for i in range(n):
         idx = f"{ctx.seed}/{ctx.shard}/{i}"
         rng = random.Random("C06/" + idx)
